@@ -19,6 +19,7 @@
 (*   RunProjectedDos(kind)    -> projected DOS (atoms | xyz | direction triad)*)
 (*   RunReordered(order)      -> the same on a descending / shuffled grid     *)
 (*   RunSmearing(fn, width)   -> total + projected DOS, Normal and Cauchy     *)
+(*   RunPresented(present)    -> window arguments as int / float / numpy scalars *)
 (* Steps are taken in the order of the event's step list.                     *)
 EXTENDS Integers, Sequences, FiniteSets, TLC
 
@@ -58,13 +59,19 @@ RunReordered == Advance("reordered") /\ meshDone /\ UNCHANGED <<meshDone, totalD
 (* from every mode                                                              *)
 RunSmearing == Advance("smearing") /\ meshDone /\ UNCHANGED <<meshDone, totalDone>>
 
+(* the frequency window given in another PRESENTATION of the same values:      *)
+(* freq_min / freq_max / freq_pitch as Python int, float, numpy int64 or        *)
+(* float32 scalars (values exactly representable in all of them), on a crystal  *)
+(* whose frequencies are in cm^-1 so that integer grids are natural             *)
+RunPresented == Advance("presented") /\ meshDone /\ UNCHANGED <<meshDone, totalDone>>
+
 (* a call of the real code that raised (logged without result fields) *)
 RunFailed == Advance("failed") /\ UNCHANGED <<meshDone, totalDone>>
 
-ANext == RunMesh \/ RunTotalDos \/ RunProjectedDos \/ RunReordered \/ RunSmearing \/ RunFailed
+ANext == RunMesh \/ RunTotalDos \/ RunProjectedDos \/ RunReordered \/ RunSmearing \/ RunPresented \/ RunFailed
 ASpec == AInit /\ [][ANext]_avars
 
-IsDos == HasCur /\ Cur.op \in {"total", "projected", "reordered", "smearing"}
+IsDos == HasCur /\ Cur.op \in {"total", "projected", "reordered", "smearing", "presented"}
 IsSmearing == HasCur /\ Cur.op = "smearing"
 
 -----------------------------------------------------------------------------
@@ -109,6 +116,17 @@ ImplIntegral == (IsDos /\ Cur.op = "total") => Cur.integral = "ok"
 (* the value at a frequency point depends on that point only: a grid in any  *)
 (* order gives, point by point, the values of the ascending grid             *)
 ImplOrderIndependent == (IsDos /\ Cur.op = "reordered") => Cur.sameAsAscending = "ok"
+
+(* the DOS is a function of the VALUES of the grid arguments, not of their     *)
+(* Python types: the returned frequency points are the same numbers and the     *)
+(* densities the same as for the twin call with float arguments (which is       *)
+(* itself held to the definition by ImplMatchesDefinition, like this one), and  *)
+(* the curve keeps its weight: its integral over the window equals the twin's   *)
+Presentations == {"int", "float", "npint64", "npfloat32", "mixed"}
+ImplPresentationIndependent ==
+  (IsDos /\ Cur.op = "presented") =>
+     /\ Cur.present \in Presentations
+     /\ Cur.sameGrid /\ Cur.sameAsFloat = "ok" /\ Cur.sameIntegral = "ok"
 
 (* smearing, for every function and width:                                     *)
 (*   DOS(w) = SUM_q w_q SUM_band coef K(f_qb - w) / SUM_q w_q  with the FULL   *)
